@@ -1,3 +1,190 @@
-import ScryerModel.Model.Json
+import ScryerModel.Proofs.Json
+import ScryerModel.Proofs.JsonGrammar
+/-!
+# C41 — JSON text and JSON terms convert faithfully both ways
+
+Theorems about the model `Model/Json.lean` of `library(serialization/json)`:
+`J` is the documented term form, `gen` the first answer of `phrase(json_chars(V), Cs)` for a
+ground `V`, `parse` the answer of `phrase(json_chars(V), Cs)` for a ground text `Cs`
+(`none` = no answer). All statements are for every value / every text: there is no bound on
+depth, length or magnitude. `v.wf` only says that the decimals standing for float tokens are
+normalised (`Num.wf`; integers, strings, containers are unrestricted) — every value the parser
+returns is `wf` (`C41_parse_canonical`).
+
+The library itself (a Prolog DCG) is tied to this model only by the differential run of
+`vlib/props/C41.py`; the conversion decimal → IEEE double is outside the model.
+Only statements live here; the lemmas are in `Proofs/Json.lean` and `Proofs/JsonGrammar.lean`
+(the latter also holds the declarative grammar `Doc`, one relation per nonterminal of the DCG).
+-/
 namespace Scryer.Json
+
+/-- **Round trip.** Text generated from any value parses back to exactly that value:
+    nested objects/arrays of any depth, every string, every integer, every canonical decimal. -/
+theorem C41_roundtrip (v : J) (hw : v.wf) : parse (gen v) = some v :=
+  parse_gen v hw
+
+/-- The round trip also holds inside any context the generator can produce: after the text of a
+    value may come the end, `,`, `]` or `}`, and any fuel of at least `need v` steps is enough. -/
+theorem C41_roundtrip_in_context (v : J) (hw : v.wf) (f : Nat) (rest : List Char)
+    (hf : need v ≤ f) (hr : closeFollow rest) :
+    parseValue f (gen v ++ rest) = some (v, rest) :=
+  rtV v hw f rest hf hr
+
+/-- **String escapes.** For every list of characters — quotes, backslashes, `/`, the control
+    characters (`\b \f \n \r \t` and `\u00xx`), DEL, non-BMP characters — the generated string
+    body is read back as the same list, whatever follows the closing quote. -/
+theorem C41_string_roundtrip (s rest : List Char) :
+    parseChars (genChars s ++ '"' :: rest) = some (s, rest) :=
+  parseChars_genChars s rest
+
+/-- as a document -/
+theorem C41_string_document_roundtrip (s : List Char) : parse (gen (.str s)) = some (.str s) :=
+  parse_gen (.str s) trivial
+
+/-- **Surrogate pairs.** `\uHHHH\uLLLL` with a high and a low surrogate (any mixture of upper-
+    and lower-case hex digits) is ONE character: the code point of the pair, which lies
+    outside the BMP. (Today's library raises `representation_error` here: finding C41-1.) -/
+theorem C41_surrogate_pair_decodes {a b c d a' b' c' d' : Char} {hi lo : Nat} (r : List Char)
+    (h1 : hex4 a b c d = some hi) (hh : isHighSurr hi = true)
+    (h2 : hex4 a' b' c' d' = some lo) (hl : isLowSurr lo = true) :
+    parseChars ('\\' :: 'u' :: a :: b :: c :: d :: '\\' :: 'u' :: a' :: b' :: c' :: d' :: r)
+        = consRes (Char.ofNat (surrPair hi lo)) (parseChars r)
+      ∧ (Char.ofNat (surrPair hi lo)).toNat = surrPair hi lo
+      ∧ 0x10000 ≤ surrPair hi lo ∧ surrPair hi lo ≤ 0x10FFFF :=
+  ⟨parseChars_pair h1 hh h2 hl, surrPair_toNat hh hl, surrPair_range hh hl⟩
+
+/-- A low surrogate that is not the second half of a pair is rejected. -/
+theorem C41_lone_low_surrogate_rejected {a b c d : Char} {n : Nat} (r : List Char)
+    (h1 : hex4 a b c d = some n) (hl : isLowSurr n = true) :
+    parseChars ('\\' :: 'u' :: a :: b :: c :: d :: r) = none :=
+  parseChars_lone_low h1 hl
+
+/-- A high surrogate that is not followed by an escaped low surrogate is rejected. -/
+theorem C41_lone_high_surrogate_rejected {a b c d : Char} {n : Nat} (r : List Char)
+    (h1 : hex4 a b c d = some n) (hh : isHighSurr n = true)
+    (hr : ∀ a' b' c' d' r' lo, r = '\\' :: 'u' :: a' :: b' :: c' :: d' :: r' →
+      hex4 a' b' c' d' = some lo → isLowSurr lo = false) :
+    parseChars ('\\' :: 'u' :: a :: b :: c :: d :: r) = none :=
+  parseChars_lone_high h1 hh hr
+
+/-- **Number tokens, integers.** For every integer (no bound on magnitude) the decimal spelling
+    written by the generator is read back as that integer, provided the token ends there (the
+    next character is not a digit, `.`, `e` or `E`). -/
+theorem C41_integer_token_roundtrip (n : Int) (rest : List Char) (h : numFollow rest) :
+    parseNumber (genInt n ++ rest) = some (.int n, rest) :=
+  parseNumber_genInt n rest h
+
+/-- **Number tokens, decimals.** Same for every canonical decimal `±m·10^e` (a float token). -/
+theorem C41_number_token_roundtrip (n : Num) (hw : n.wf) (rest : List Char) (h : numFollow rest) :
+    parseNumber (genNum n ++ rest) = some (n, rest) :=
+  parseNumber_genNum n hw rest h
+
+/-- **`parse` is total and its `none` is a genuine rejection.** `parse` is defined by structural
+    recursion on explicit fuel (no `partial`); this theorem says the fuel `2·length+2` it uses
+    is always enough: giving the parser more fuel never changes the answer. -/
+theorem C41_parse_total (s : List Char) (f : Nat) (hf : 2 * s.length + 2 ≤ f) :
+    parseWith f s = parse s :=
+  parseWith_stable s f hf
+
+/-- **Converse direction (partial).** Whatever text `s` the parser accepts, the value `v` it
+    returns is canonical and `gen v` is a normal form of `s`: it parses to the same value. Hence
+    two accepted texts have the same value iff they have the same normal form. What is missing
+    for the full converse: that `gen v` is obtained from `s` by only dropping white space and
+    respelling escapes and numbers. -/
+theorem C41_parse_canonical_partial {s : List Char} {v : J} (h : parse s = some v) :
+    v.wf ∧ parse (gen v) = some v :=
+  ⟨parse_wf h, parse_gen v (parse_wf h)⟩
+
+theorem C41_normal_form_partial {s s' : List Char} {v v' : J}
+    (h : parse s = some v) (h' : parse s' = some v') : v = v' ↔ gen v = gen v' := by
+  constructor
+  · intro e; rw [e]
+  · intro e
+    have h1 := (C41_parse_canonical_partial h).2
+    have h2 := (C41_parse_canonical_partial h').2
+    rw [e, h2] at h1
+    exact (Option.some.inj h1).symm
+
+/-! ## the accepted language, exactly
+
+`Doc v s` (`Proofs/JsonGrammar.lean`) is the declarative reading of the DCG: `GVal`, `GL`, `GM`,
+`GChars`, `GChar`, `GNum`, `GFrac`, `GExp`, `Ws` mirror `json_value//1`, `json_elements//2`,
+`json_members//2`, `json_characters//1`, `json_character//1`, `json_number//1`,
+`json_fraction//1`, `json_exponent//1`, `json_ws//0` clause by clause (white space anywhere the
+DCG allows it, all escape spellings, all number spellings), plus the surrogate-pair escape. -/
+
+/-- **Soundness of the parser**: an accepted text is a sentence of the grammar and the value
+    returned is the value the grammar assigns to it. -/
+theorem C41_parse_sound {s : List Char} {v : J} (h : parse s = some v) : Doc v s :=
+  parse_sound h
+
+/-- **Completeness of the parser**: every sentence of the grammar, with any white space and
+    any spelling of escapes and numbers, is accepted with the value the grammar assigns. -/
+theorem C41_parse_complete {s : List Char} {v : J} (h : Doc v s) : parse s = some v :=
+  parse_complete h
+
+/-- **Invalid JSON is rejected**: `parse` answers `none` exactly on the texts that are not
+    sentences of the grammar. -/
+theorem C41_rejects_exactly_non_sentences (s : List Char) : parse s = none ↔ ¬ ∃ v, Doc v s :=
+  parse_none_iff s
+
+/-- The grammar assigns at most one value to a text (no ambiguity between escape spellings,
+    number spellings or white space). -/
+theorem C41_grammar_unambiguous {s : List Char} {v v' : J} (h : Doc v s) (h' : Doc v' s) : v = v' :=
+  Doc.unique h h'
+
+/-- What the generator writes is a sentence of the grammar denoting the value it was given. -/
+theorem C41_generated_text_is_a_sentence (v : J) (hw : v.wf) : Doc v (gen v) :=
+  parse_sound (parse_gen v hw)
+
+/-- **Converse direction**: if `s` is accepted with value `v` then `gen v` is another sentence
+    with the same value, and any two sentences with the same value have the same `gen v`: `gen v`
+    is the canonical representative of the class of spellings of `v`. -/
+theorem C41_canonical_representative {s : List Char} {v : J} (h : parse s = some v) :
+    Doc v s ∧ Doc v (gen v) ∧ ∀ s' v', Doc v' s' → (gen v' = gen v ↔ v' = v) := by
+  refine ⟨parse_sound h, parse_sound (parse_gen v (parse_wf h)), fun s' v' h' => ?_⟩
+  have h2 := parse_complete h'
+  exact (C41_normal_form_partial h2 h).symm
+
+-- non-vacuity: a sentence with white space, an escape and an exponent, built from the clauses
+example : Doc (.arr (.cons (.num (.int 100)) .nil)) ['[', ' ', '1', 'e', '2', '\n', ']'] :=
+  parse_sound (by rfl)
+example : ¬ ∃ v, Doc v ['[', '1', ',', ']'] := (parse_none_iff _).1 (by rfl)
+
+/-! ## non-vacuity: the hypotheses are satisfiable and the interesting branches are reached -/
+
+-- a value with every constructor, a negative decimal, an escaped key; it is canonical
+example : (J.obj (.cons ['k', '"'] (.arr (.cons (.num (.dec true 25 (-1))) (.cons .null (.cons (.bool false) .nil))))
+    (.cons [] (.str ['\n', '/', '\x01']) .nil))).wf := by
+  simp [J.wf, JM.wf, JL.wf, Num.wf]
+-- what the generator writes: two-character escapes (also for `/`), `\u00xx` for other controls
+example : gen (.str ['\n', '/', '\x01', '\x7f']) =
+    ['"', '\\', 'n', '\\', '/', '\\', 'u', '0', '0', '0', '1', '\x7f', '"'] := by rfl
+example : gen (.obj (.cons ['k'] (.arr (.cons (.num (.int (-12))) (.cons .null .nil))) .nil)) =
+    ['{', '"', 'k', '"', ':', '[', '-', '1', '2', ',', 'n', 'u', 'l', 'l', ']', '}'] := by rfl
+-- white space, escapes and number spellings are accepted; `1.50e1` is the decimal 15·10^0
+example : parse ['[', '1', ',', ' ', '"', 'a', '"', ' ', ']'] =
+    some (.arr (.cons (.num (.int 1)) (.cons (.str ['a']) .nil))) := by rfl
+example : parse ['1', '.', '5', '0', 'e', '1'] = some (.num (.dec false 15 0)) := by rfl
+example : parse ['1', 'E', '+', '2'] = some (.num (.int 100)) := by rfl
+example : parse ['1', '0', '0', 'e', '-', '2'] = some (.num (.dec false 1 0)) := by rfl
+-- a surrogate pair (mixed-case hex) is one character; lone surrogates are rejected
+example : parse ['"', '\\', 'u', 'D', '8', '3', 'd', '\\', 'u', 'd', 'E', '0', '0', '"'] =
+    some (.str [Char.ofNat 0x1F600]) := by rfl
+example : hex4 'D' '8' '3' 'd' = some 0xD83D ∧ isHighSurr 0xD83D = true ∧
+    hex4 'd' 'E' '0' '0' = some 0xDE00 ∧ isLowSurr 0xDE00 = true ∧ surrPair 0xD83D 0xDE00 = 0x1F600 := by
+  decide
+example : parse ['"', '\\', 'u', 'd', '8', '0', '0', '"'] = none := by rfl
+example : parse ['"', '\\', 'u', 'd', 'c', '0', '0', '"'] = none := by rfl
+example : parse ['"', '\\', 'u', 'd', '8', '0', '0', '\\', 'u', '0', '0', '4', '1', '"'] = none := by rfl
+-- malformed documents are rejected
+example : parse ['0', '1'] = none := by rfl
+example : parse [] = none := by rfl
+example : parse ['[', '1', ',', ']'] = none := by rfl
+example : parse ['"', 'a', '\t', '"'] = none := by rfl
+example : parse ['1', ' ', '2'] = none := by rfl
+-- the follow conditions are what the generator produces
+example : closeFollow [',', '1'] ∧ closeFollow [] ∧ numFollow [']'] := by
+  refine ⟨Or.inl rfl, trivial, ?_⟩; simp only [numFollow]; decide
+
 end Scryer.Json
